@@ -17,7 +17,10 @@ try:
     ck.regen(merge34.GENERATE)
 except RuntimeError as e:
     translator_error = str(e)
+import time as _time
+_t0 = _time.time(); phase_s = {}
 pr = ck.prove() if translator_error is None else None
+phase_s["prove"] = round(_time.time() - _t0, 1)
 if translator_error is not None:
     ck.violation("translator of the C05 merge automata failed on multiway_merge.hpp: " + translator_error[:200],
                  {"correspondence": "translate/merge34.py (needed by coq/C06/Instances.v)"}, no_input=True)
@@ -140,7 +143,8 @@ API_SURFACE = [
     {"entry": "comparator: lambda closure", "called": True, "by": "variants avl5, bdl4"},
     {"entry": "comparator disagreeing with the element's operator<", "called": True, "by": "every G case; counted for sampling with >= 2 threads in input_distribution.sampling_comparator_not_natural_order"},
     {"entry": "global tlx::parallel_multiway_merge_oversampling (1, 2, 3, 10)", "called": True, "by": "every case"},
-    {"entry": "#if defined(_OPENMP) thread creation", "called": False, "by": "the harness is built without OpenMP, as the library's own tests; the std::thread branch is the one modelled"},
+    {"entry": "#if defined(_OPENMP) thread creation", "called": "thorough tier", "by": "quick tier: built without OpenMP, as the library's own tests (the std::thread branch is the one modelled); thorough tier: a -fopenmp build runs the corpus and a sample of cases, results judged against the property (windows differ: the calling thread is team member 0). Finding reported in docs/audit/C06.md: the branch deadlocks when the OpenMP runtime delivers fewer threads than requested"},
+    {"entry": "global tlx::parallel_multiway_merge_oversampling = 0", "called": "exact splitting only", "by": "unused by exact splitting (covered); with sampling the sort throws std::bad_array_new_length before touching the input (outside the property, docs/audit/C06.md)"},
 ]
 
 # ---------------------------------------------------------------- build (three harness executables, in parallel)
@@ -152,6 +156,7 @@ with ThreadPoolExecutor(3) as ex:
               for k in (0, 1, 2)]
     builds = [f.result() for f in builds]
 exes = [b[0] for b in builds]
+phase_s["build_harness"] = round(_time.time() - _t0 - phase_s["prove"], 1)
 exe = exes[0]
 log = "\n".join(b[1][-1500:] for b in builds if b[0] is None)
 if None in exes:
@@ -167,7 +172,7 @@ if exe is not None:
 corpus_file = os.path.join(verif.VERIF, "corpus", "C06", "cases.txt")
 cases = [l.strip() for l in open(corpus_file) if l.strip() and not l.startswith("#")]
 ncorpus = len(cases)
-hist = {"corpus": ncorpus, "grid": 0, "few_per_thread": 0, "many_threads": 0, "api_variants": 0, "large": 0}
+hist = {"corpus": ncorpus, "grid": 0, "few_per_thread": 0, "many_threads": 0, "oversampling_extremes": 0, "api_variants": 0, "large": 0}
 pat_hist = {}
 if ck.replay:
     cases = [json.load(open(ck.replay))["case"]]
@@ -208,6 +213,19 @@ else:
                     cases.append(mk_case(rng.choice(ELEMS), rng.chance(2, 3), split, "G" if rng.chance(1, 4) else "L",
                                          p, rng.choice(OSS), keys))
                     hist["many_threads"] = hist.get("many_threads", 0) + 1
+    # oversampling extremes: large factors with sampling (few threads: the sample array has p*(os*p-1) elements), and 0
+    # with exact splitting (the factor is unused there; with sampling 0 makes the sample count negative and the sort
+    # throws std::bad_array_new_length before touching the input - outside the property, see docs/audit/C06.md)
+    for _ in range(400 if ck.thorough() else 80):
+        p = rng.choice([1, 2, 3, 4, 5, 6]); n = rng.choice([0, 1, 2, p, p + 1, rng.range(0, 60)])
+        keys, pat = gen_keys(rng, n, rng.choice([1, 2, 3, 4, 30]))
+        pat_hist[pat] = pat_hist.get(pat, 0) + 1
+        if rng.chance(1, 4):
+            cases.append(mk_case(rng.choice(ELEMS), rng.chance(2, 3), "E", "G" if rng.chance(1, 4) else "L", p, 0, keys))
+        else:
+            cases.append(mk_case(rng.choice(ELEMS), rng.chance(2, 3), "X", "G" if rng.chance(1, 3) else "L", p,
+                                 rng.choice([25, 64, 100]), keys))
+        hist["oversampling_extremes"] = hist.get("oversampling_extremes", 0) + 1
     # API variants (entry point / iterator kind / comparator kind / defaulted arguments), chosen per case from the seed
     nvar = 5000 if ck.thorough() else 900
     for _ in range(nvar):
@@ -267,29 +285,30 @@ elif drv is None:
     ck.violation("extracted model/driver does not build", {"correspondence": "ocaml/C06_driver.ml", "log": dlog[-2000:]}, no_input=True)
 else:
     env = dict(os.environ, ASAN_OPTIONS="detect_leaks=1", UBSAN_OPTIONS="print_stacktrace=1")
-    # the harness spends its time creating real threads under ASan: the default cases run as 3 contiguous chunks on the main
+    # the harness spends its time creating real threads under ASan: the default cases run as 4 contiguous chunks on the main
     # executable, the API-variant cases on the two variant executables, all in parallel
     def exe_of(c):
         pc_ = parse_case(c)
         return exes[VARIANT_SET.get((pc_["variant"], pc_["elem"]), 0) if pc_["variant"] != "avk5" else 0]
     main_idx = [i for i, c in enumerate(cases) if exe_of(c) == exes[0]]
     jobs = []                                            # (exe, [case indices])
-    for k in range(3):
-        part = main_idx[len(main_idx) * k // 3:len(main_idx) * (k + 1) // 3]
-        if part: jobs.append((exes[0], part))
     for e_ in exes[1:]:
         part = [i for i, c in enumerate(cases) if exe_of(c) == e_]
         if part: jobs.append((e_, part))
+    for k in range(4):
+        part = main_idx[len(main_idx) * k // 4:len(main_idx) * (k + 1) // 4]
+        if part: jobs.append((exes[0], part))
     job_files = []
     for k, (e_, part) in enumerate(jobs):
         cf = os.path.join(ck.scratch, "cases_%d.txt" % k)
         open(cf, "w").write("\n".join(cases[i] for i in part) + "\n")
         job_files.append(cf)
-    with ThreadPoolExecutor(len(jobs) + 1) as ex:
+    with ThreadPoolExecutor(5) as ex:                  # at most 4 harness processes + the model at a time
         fm = ex.submit(verif.sh, [drv, casefile], 3000)
         fs = [ex.submit(verif.sh, [e_, cf], 3000, None, env) for (e_, _), cf in zip(jobs, job_files)]
         rc2, out2 = fm.result()
         job_res = [f.result() for f in fs]
+    phase_s["run"] = round(_time.time() - _t0 - phase_s["prove"] - phase_s["build_harness"], 1)
     # put the lines back in case order; a job that died early leaves the rest of its cases without a line
     impl = [None] * len(cases); rc1 = 0; out1 = ""; crashed = []          # crashed: (case index, exe, log)
     for (e_, part), (r, o) in zip(jobs, job_res):
@@ -386,6 +405,33 @@ else:
             elif rc3 != 0:
                 tsan["note"] = "ThreadSanitizer runtime unavailable in this environment: " + out3[-200:]
 
+# ---------------------------------------------------------------- thorough: the _OPENMP branch of parallel_mergesort_base
+openmp = None
+if ck.thorough() and exe is not None and drv is not None and ck.violations == 0 and not ck.replay:
+    oexe, olog = ck.build_cpp("c06_harness_omp", ["harness/C06/pms_harness.cpp"], repo_sources=REPO_SRC,
+                              flags=verif.CXXFLAGS_SAN + ["-fopenmp"], extra=["-DC06_SET=0"])
+    if oexe is None:
+        openmp = {"built": False, "log": olog[-300:]}
+    else:
+        sub = [c for c in cases[:ncorpus] if parse_case(c)["variant"] == "avk5"] + \
+              [c for i, c in enumerate(cases[ncorpus:]) if i % 7 == 0 and len(c) < 2500 and parse_case(c)["variant"] == "avk5"][:3000]
+        of = os.path.join(ck.scratch, "omp_cases.txt"); open(of, "w").write("\n".join(sub) + "\n")
+        env_o = dict(os.environ, ASAN_OPTIONS="detect_leaks=1", OMP_DYNAMIC="false")
+        for k_ in ("OMP_THREAD_LIMIT", "OMP_NUM_THREADS"): env_o.pop(k_, None)
+        rc4, out4 = verif.sh([oexe, of], timeout=1500, env=env_o)
+        lines4 = [l for l in out4.splitlines() if l.startswith("keys=")]
+        openmp = {"built": True, "cases": len(sub), "completed": len(lines4), "rc": rc4}
+        for c, l in zip(sub, lines4):
+            v_ = property_verdict(c, l)
+            if v_ is not None:
+                found = True
+                ck.violation("OpenMP build of (stable_)parallel_mergesort: " + v_, {"case": c, "impl": l[:600], "build": "-fopenmp"})
+                break
+        if len(lines4) < len(sub) and ck.violations == 0:
+            found = True
+            ck.violation("OpenMP build of (stable_)parallel_mergesort crashes or does not terminate on a valid input",
+                         {"case": sub[len(lines4)], "build": "-fopenmp", "sanitizer_report_head": san_head(out4), "log_tail": out4[-1200:]})
+
 if pr is not None and not pr["ok"]:
     ck.proof_broken(found)
 
@@ -408,6 +454,8 @@ ck.finish({
     "input_distribution": dict(stats, **{"source_" + k: v for k, v in hist.items()},
                                **{"pattern_%d" % k: v for k, v in sorted(pat_hist.items())}),
     "tsan": tsan,
+    "openmp": openmp,
+    "phase_seconds": phase_s,
 }, assumptions=[
     "std::sort / std::stable_sort / std::lower_bound / uninitialized_copy are modelled by their specifications",
     "multisequence_partition (C08) and multiway_merge_base (C05) enter the theorems through their specifications "
